@@ -93,3 +93,29 @@ class LllReduce:
   assumed = True
   assumed_why = "fpylll LLL (C extension); shape-only contract, rows are 3-vectors as at every call site"
   ensures = []
+
+
+@contract(f"{RSA}::CheckLowHammingWeight")
+class CheckLowHammingWeight:
+  params = {"n": "int", "cutoff": "int", "maxsteps": "int"}
+  returns = "tuple[bool, list[int]]"
+  requires = ["n >= 2"]
+  ensures = [("C01", "len(result[1]) == 0 or (len(result[1]) == 2 and result[1][0] * result[1][1] == n)"),
+             ("C01,C05", "implies(len(result[1]) == 2, result[0])")]
+  # the best-first search is havocked (invariant True): soundness needs only rem0 == n0 - p0*q0 == 0 with bit == 0
+  loops = {0: dict(types={"heap": "list[tuple[int,int,int,int,int]]"}),
+           1: dict(types={"heap": "list[tuple[int,int,int,int,int]]"})}
+  total = True
+
+
+@contract(f"{RSA}::BatchGCD")
+class BatchGCD:
+  """Remainder-tree induction is outside SMT reach: assumed here (shape + divisibility), decided by the bounded tier
+  (bounded/c03.py) against the definition gcd(v_i, other * prod of the other distinct values)."""
+  params = {"values": "list[int]", "other_values_prod": "Optional[int]"}
+  returns = "list[int]"
+  assumed = True
+  assumed_why = "product/remainder-tree induction; exhaustively checked for every batch size 0..130 in the bounded tier"
+  requires = ["forall(j, 0, len(values), values[j] >= 1)"]
+  ensures = ["len(result) == len(values)",
+             "forall(j, 0, len(result), result[j] >= 1 and values[j] % result[j] == 0)"]
